@@ -607,7 +607,9 @@ func cmdCheck(args []string) {
 
 func tail(s string, n int) string {
 	if len(s) > n {
-		return "..." + s[len(s)-n:]
+		// keep the beginning too: a runtime "fatal error" line is at the top of a long goroutine dump
+		h := n / 3
+		return s[:h] + "\n...[" + strconv.Itoa(len(s)-n) + " bytes omitted]...\n" + s[len(s)-(n-h):]
 	}
 	return s
 }
